@@ -1,0 +1,23 @@
+//go:build !verif
+
+package streampool
+
+import "storj.io/drpc"
+
+// No-op twins of the verification hooks (see verif_on.go, build tag `verif`).
+
+type verifPoolState struct{}
+
+type verifStreamState struct{}
+
+func verifNop() {}
+
+func verifAddStream(s *streamPool, st *stream, queueSize int) {}
+
+func verifPool(s *streamPool, ev string, st *stream, tags []string) {}
+
+func verifWrite(sr *stream, msg drpc.Message, err *error) func() { return verifNop }
+
+func verifWriter(sr *stream, ev string, msg drpc.Message, err error) {}
+
+func verifClose(sr *stream, ev string) {}
